@@ -104,7 +104,14 @@ Definition pow10Q (e : Z) : Q :=
     not modelled) *)
 Definition pf_value (r : pfres) : option Q :=
   if (Z.abs (pf_exp r) <=? 400)
-  then Some (Qmult (inject_Z (if pf_neg r then - pf_n r else pf_n r)) (pow10Q (pf_exp r)))
+  then
+    let n := if pf_neg r then - pf_n r else pf_n r in
+    (* quirk of the library's fast path: for 22 < exp <= 37 the mantissa is first multiplied by 10^(exp-22);
+       when the product exceeds 1e15 the function falls through to the generic path, which multiplies the
+       ALREADY SCALED value by 10^-mantExp * 10^expExp = 10^exp again *)
+    let extra := if (22 <? pf_exp r) && (pf_exp r <=? 37) && (10 ^ 15 <? Z.abs n * 10 ^ (pf_exp r - 22))
+                 then pf_exp r - 22 else 0 in
+    Some (Qmult (inject_Z n) (pow10Q (pf_exp r + extra)))
   else None.
 
 (** ---- lengths never exceed the input: the fact ParseSVGPath's index arithmetic relies on -------- *)
